@@ -152,11 +152,18 @@ def _judge(ctx, traces, verdicts, rnd, ex):
 
     def pick(t, cond):
         return next(i for i, r in enumerate(t["runs"]) if cond(r))
-    gs = cut(next(t for t in traces if t["family"] == "small" and verdicts[t["tid"]][1] == "ok" and t["api"] == "random_range" and t["p2"] - t["p1"] >= 2))
-    gp = cut(next(t for t in traces if t["family"] == "perm" and verdicts[t["tid"]][1] == "ok" and t["api"] == "shuffle" and t["n"] >= 3))
-    gb = next(t for t in traces if t["family"] == "big" and verdicts[t["tid"]][1] == "ok" and t["consumer"].startswith("ECC.generate(p"))
-    gn = next(t for t in traces if t["family"] == "big" and verdicts[t["tid"]][1] == "ok" and "nonce" in t["consumer"])
+    def first(pred):
+        return next((t for t in traces if verdicts[t["tid"]][1] == "ok" and pred(t)), None)
+    gs = first(lambda t: t["family"] == "small" and t["api"] == "random_range" and t["p2"] - t["p1"] >= 2)
+    gp = first(lambda t: t["family"] == "perm" and t["api"] == "shuffle" and t["n"] >= 3)
+    gb = first(lambda t: t["family"] == "big" and t["consumer"].startswith("ECC.generate(p"))
+    gn = first(lambda t: t["family"] == "big" and "nonce" in t["consumer"])
     gd = good["det"]
+    if None in (gs, gp, gb, gn):
+        if not ctx.violations:       # in a run with violations the accepted record of some shape may be missing: the violations stand
+            raise Machinery("no accepted trace of some shape to run the binding self-checks on")
+        return
+    gs, gp = cut(gs), cut(gp)
 
     def other_value(t):          # another value of the range: only the machine can tell
         i = pick(t, lambda r: r["exc"] == "none")
